@@ -4,7 +4,7 @@ From Coq Require Import String NArith ZArith List Bool Lia Arith.
 From Coq Require Import ZifyN ZifyNat ZifyBool.
 Require Import GoSlice Bits AperCommon AperEnc AperDec Asn1 X691 Asn1Tags AperBits AperBitsGet AperBitsPut AperEncProofs
         AperStructPrim AperStructStr AperStructDefs AperStructLeaf AperStructSeq AperStructFld AperStructMain
-        AperRoundPrim AperRoundNe AperRoundMain AperStructRefDefs.
+        AperRoundPrim AperRoundNe AperRoundSeq AperRoundMain AperStructRefDefs.
 Import ListNotations.
 Open Scope N_scope.
 Ltac Zify.zify_post_hook ::= Z.div_mod_to_equations.
@@ -33,13 +33,14 @@ Section Level.
 
   Lemma field_ok allf allv allcs f1 f2 f4 pos0 i f x cv0 (acc : bits) e :
     (fdepth allf <= n)%nat -> (fdepth allf <= f1)%nat -> (fdepth allf <= f2)%nat -> (fdepth allf <= f4)%nat ->
+    length allf = length allv -> all_some (map (habs f2) (combine allf allv)) = Some allcs ->
     nth_error allf i = Some f ->
     habs f2 (f, x) = Some (Some cv0) ->
     field_supr (supr_f f4) (makeField f4) allf allv i f x = true ->
     comp_enc allcs (snd (gty f1 allf f)) cv0 (pos0 + length acc) = XOk e ->
     field_sup (sup_f f4) (makeField f4) allf allv i f x = true.
   Proof.
-    intros Dn D1 D2 D4 Hnf Hc Hs1 Ee0. pose proof (fdepth_nth _ _ _ Hnf) as Hdf.
+    intros Dn D1 D2 D4 Hlen Hall Hnf Hc Hs1 Ee0. pose proof (fdepth_nth _ _ _ Hnf) as Hdf.
     (* this component *)
     unfold field_supr in Hs1. unfold field_sup. unfold habs in Hc.
     destruct (f_ty f) as [| | | | | | |e0|e0|cfs] eqn:Et.
@@ -60,8 +61,7 @@ Section Level.
       2:{ unfold gty in Ee. rewrite Eo, Et in Ee. cbn [snd] in Ee. rewrite comp_enc_t2a in Ee.
           rewrite <- Et in *. apply (Hrec (f_ty f) ltac:(lia) f1 f2 f4 (f_params f) _ cv (pos0 + length acc)%nat e); auto; lia. }
       apply andb_true_iff in Hs1. destruct Hs1 as [Hno Hos]. rewrite Hno. cbn [andb].
-      unfold open_supr in Hos. apply andb_true_iff in Hos. destruct Hos as [Hos Href].
-      unfold open_sup in *. destruct l as [|[present| | | | | | | |] cvr]; try discriminate.
+      unfold open_supr in Hos. unfold open_sup. destruct l as [|[present| | | | | | | |] cvr]; try discriminate.
       apply andb_true_iff in Hos; destruct Hos as [Hos Hrest].
       apply andb_true_iff in Hos; destruct Hos as [Hos Hleq].
       apply andb_true_iff in Hos; destruct Hos as [Hos Hplt].
@@ -75,13 +75,11 @@ Section Level.
       destruct (nth_error allv idx) as [rv|] eqn:Erv; [|discriminate].
       destruct (nth_error cfs (Z.to_nat present)) as [a|] eqn:Ea; [|discriminate].
       destruct (nth_error (VInt present :: cvr) (Z.to_nat present)) as [av|] eqn:Eav; [|discriminate].
+      apply andb_true_iff in Hm; destruct Hm as [Href Hm].
+      apply andb_true_iff in Href; destruct Href as [Href Hrfo]. apply andb_true_iff in Href; destruct Href as [Hshape Hrfopt].
       destruct (p_refValue (f_params a)) as [r|] eqn:Er; [|discriminate].
       destruct (get_ref REF_FUEL (f_ty rf) rv) as [z| | |] eqn:Ez; try discriminate.
-      apply andb_true_iff in Hm; destruct Hm as [Hm Hne].
-      apply andb_true_iff in Hm; destruct Hm as [Hm Hsupa].
-      apply andb_true_iff in Hm; destruct Hm as [Hrz Hfind].
-      rewrite Hrz, Hfind, Hne. cbn [andb]. rewrite andb_true_r.
-      apply Nat.eqb_eq in Hleq. apply Nat.eqb_eq in Hfind. assert (z = r) by lia. subst z.
+      apply Nat.eqb_eq in Hleq.
       assert (Hda : (S (ty_depth (f_ty a)) <= ty_depth (TStruct cfs))%nat).
       { rewrite ty_depth_struct. pose proof (fdepth_nth _ _ _ Ea). lia. }
       destruct f2 as [|f2']; [pose proof (ty_depth_pos (TStruct cfs)); lia|].
@@ -98,13 +96,25 @@ Section Level.
       { apply (find_field_index _ allf i 0); [apply Nat.lt_le_incl; apply nth_error_Some; congruence|cbn [Nat.add]; exact Hni]. }
       rewrite Hidx, Hch, Hvx in Ee. cbn [andb] in Ee.
       destruct (all_some (map (alt_key f1) (tl cfs))) as [alts|] eqn:Ealts; cbn [snd comp_enc] in Ee; [|discriminate].
-      destruct (nth_error allcs idx) as [[sv|]|]; try discriminate.
-      destruct (key_of sv) as [k|]; [|discriminate].
+      (* the identifier component, read alike by the specification and the library *)
+      destruct (all_some_nth (habs (S f2')) _ _ idx (rf, rv) Hall) as (c' & Hc' & Hn').
+      { apply nth_error_combine; assumption. }
+      assert (Habsr : exists sv, c' = Some sv /\ abs_f (S f2') (f_ty rf) (f_params rf) rv = Some sv).
+      { unfold habs in Hc'. destruct (f_ty rf); try discriminate; destruct (abs_f (S f2') _ (f_params rf) rv) as [sv|]; try discriminate; injection Hc' as <-; eauto. }
+      destruct Habsr as (sv & -> & Habsr). rewrite Hn' in Ee.
+      destruct (key_of sv) as [k|] eqn:Ek; [|discriminate].
+      destruct (X691.find_alt r alts) as [at'|] eqn:Efa; [|discriminate].
+      destruct (k =? r)%Z eqn:Ekr; [|discriminate]. assert (k = r) by lia. subst k.
+      pose proof (get_ref_key _ _ _ _ _ _ Hshape Habsr Ek) as Hg. rewrite Ez in Hg. injection Hg as ->.
+      assert ((r =? r)%Z = true) as Hrr by lia. rewrite Hrr in *. cbn [negb orb andb] in Hm.
+      apply andb_true_iff in Hm; destruct Hm as [Hm Hne].
+      apply andb_true_iff in Hm; destruct Hm as [Hfind Hsupa].
+      rewrite Hfind, Hne. cbn [andb]. rewrite andb_true_r. apply Nat.eqb_eq in Hfind.
       assert (Hfa : X691.find_alt r alts = Some (t2a f1 (f_ty a) (f_params a))).
       { destruct cfs as [|c0 cfs']; [destruct (Z.to_nat present); discriminate|].
         destruct (Z.to_nat present) as [|m] eqn:Em; [lia|]. cbn [tl nth_error] in *.
         eapply (find_alt_link f1 r cfs' alts 1 m a); eauto. }
-      rewrite Hfa in Ee. destruct (k =? r)%Z; [|discriminate].
+      rewrite Hfa in Efa. injection Efa as <-.
       destruct (x691 (t2a f1 (f_ty a) (f_params a)) xx 0) as [inner| |] eqn:Einner; cbn [xbind] in Ee; try discriminate.
       apply (Hrec (f_ty a) ltac:(lia) f1 f2' f4 (f_params a) av xx 0%nat inner); auto; lia.
   Qed.
@@ -125,80 +135,12 @@ Section Level.
     apply andb_true_iff in Hsup. destruct Hsup as [Hs1 Hs2].
     destruct (skipn_step _ _ _ _ Hfr) as [Hfr' Hnf]. destruct (skipn_step _ _ _ _ Hvr) as [Hvr' Hnv].
     cbn [map] in Hx. rewrite (surjective_pairing (gty f1 allf f)), gty_opt in Hx. rewrite x_comps_cons in Hx.
-    pose proof (fdepth_nth _ _ _ Hnf) as Hdf.
-    cbn [fields_sup]. apply andb_true_iff. split.
-    2:{ destruct c as [cv|].
-        - destruct (comp_enc allcs (snd (gty f1 allf f)) cv (pos0 + length acc)) as [e| |]; cbn [xbind] in Hx; try discriminate. eapply IH; eauto.
-        - destruct (p_optional (f_params f)); [|discriminate]. eapply IH; eauto. }
-    (* this component *)
-    unfold field_supr in Hs1. unfold field_sup. unfold habs in Hc.
-    destruct (f_ty f) as [| | | | | | |e0|e0|cfs] eqn:Et.
-    all: try (destruct x; try discriminate).
-    all: try (destruct (abs_f f2 _ (f_params f) _) as [cv|] eqn:Eabs; [|discriminate]; injection Hc as <-;
-              destruct (comp_enc allcs (snd (gty f1 allf f)) cv (pos0 + length acc)) as [e| |] eqn:Ee; cbn [xbind] in Hx; try discriminate).
-    all: try (destruct (p_openType (f_params f)) eqn:Eo;
-              [apply andb_true_iff in Hs1; destruct Hs1 as [_ Hs1]; apply andb_true_iff in Hs1; destruct Hs1 as [_ Hs1];
-               unfold open_supr, open_sup in Hs1; cbn [andb] in Hs1; discriminate|]).
-    all: try (apply andb_true_iff in Hs1; destruct Hs1 as [Hp Hs1]; rewrite Hp; cbn [andb];
-              unfold gty in Ee; rewrite Eo, Et in Ee; cbn [snd] in Ee; rewrite comp_enc_t2a in Ee;
-              rewrite <- Et in *; apply (Hrec (f_ty f) ltac:(lia) f1 f2 f4 (f_params f) _ cv (pos0 + length acc)%nat e); auto; lia).
-    - (* nil pointer *)
-      destruct (p_optional (f_params f)) eqn:Eopt; [reflexivity|]. injection Hc as <-.
-      destruct (comp_enc allcs (snd (gty f1 allf f)) AVInvalid (pos0 + length acc)) as [e| |] eqn:Ee; cbn [xbind] in Hx; try discriminate.
-      exfalso. eapply comp_enc_invalid; eauto.
-    - (* a struct-typed component: ordinary or open type *)
-      apply andb_true_iff in Hs1. destruct Hs1 as [Hp Hs1]. rewrite Hp. cbn [andb].
-      destruct (p_openType (f_params f)) eqn:Eo.
-      2:{ unfold gty in Ee. rewrite Eo, Et in Ee. cbn [snd] in Ee. rewrite comp_enc_t2a in Ee.
-          rewrite <- Et in *. apply (Hrec (f_ty f) ltac:(lia) f1 f2 f4 (f_params f) _ cv (pos0 + length acc)%nat e); auto; lia. }
-      apply andb_true_iff in Hs1. destruct Hs1 as [Hno Hos]. rewrite Hno. cbn [andb].
-      unfold open_supr in Hos. apply andb_true_iff in Hos. destruct Hos as [Hos Href].
-      unfold open_sup in *. destruct l as [|[present| | | | | | | |] cvr]; try discriminate.
-      apply andb_true_iff in Hos; destruct Hos as [Hos Hrest].
-      apply andb_true_iff in Hos; destruct Hos as [Hos Hleq].
-      apply andb_true_iff in Hos; destruct Hos as [Hos Hplt].
-      apply andb_true_iff in Hos; destruct Hos as [Hos Hpgt].
-      apply andb_true_iff in Hos; destruct Hos as [Hch Hvx].
-      cbv zeta in Hrest. apply andb_true_iff in Hrest; destruct Hrest as [Hidxne Hm].
-      rewrite Hch, Hvx, Hpgt, Hplt, Hleq. cbn [andb]. cbv zeta.
-      set (idx := find_field (p_refName (f_params f)) allf i 0) in *. rewrite Hidxne. cbn [andb].
-      assert (Hni : idx <> i) by (intros E'; rewrite E', Nat.eqb_refl in Hidxne; discriminate).
-      destruct (nth_error allf idx) as [rf|] eqn:Erf; [|discriminate].
-      destruct (nth_error allv idx) as [rv|] eqn:Erv; [|discriminate].
-      destruct (nth_error cfs (Z.to_nat present)) as [a|] eqn:Ea; [|discriminate].
-      destruct (nth_error (VInt present :: cvr) (Z.to_nat present)) as [av|] eqn:Eav; [|discriminate].
-      destruct (p_refValue (f_params a)) as [r|] eqn:Er; [|discriminate].
-      destruct (get_ref REF_FUEL (f_ty rf) rv) as [z| | |] eqn:Ez; try discriminate.
-      apply andb_true_iff in Hm; destruct Hm as [Hm Hne].
-      apply andb_true_iff in Hm; destruct Hm as [Hm Hsupa].
-      apply andb_true_iff in Hm; destruct Hm as [Hrz Hfind].
-      rewrite Hrz, Hfind, Hne. cbn [andb]. rewrite andb_true_r.
-      apply Nat.eqb_eq in Hleq. apply Nat.eqb_eq in Hfind. assert (z = r) by lia. subst z.
-      assert (Hda : (S (ty_depth (f_ty a)) <= ty_depth (TStruct cfs))%nat).
-      { rewrite ty_depth_struct. pose proof (fdepth_nth _ _ _ Ea). lia. }
-      destruct f2 as [|f2']; [pose proof (ty_depth_pos (TStruct cfs)); lia|].
-      cbn [abs_f] in Eabs.
-      match type of Eabs with (if negb ?c then _ else _) = _ => assert (Ec : c = true) by (apply Nat.eqb_eq; exact Hleq) end.
-      rewrite Ec in Eabs. cbn [negb] in Eabs. rewrite Hch in Eabs.
-      assert (Hrange : ((0 <? present) && (present <? Z.of_nat (length cfs)))%Z = true) by lia.
-      match type of Eabs with (if ?c then _ else _) = _ => replace c with true in Eabs by (symmetry; exact Hrange) end.
-      rewrite Ea, Eav in Eabs.
-      destruct (abs_f f2' (f_ty a) (f_params a) av) as [xx|] eqn:Exx; [|discriminate].
-      rewrite Eo, Er in Eabs. injection Eabs as <-.
-      unfold gty in Ee. rewrite Eo, Et in Ee. cbn [strip_ptr] in Ee.
-      assert (Hidx : index_of (p_refName (f_params f)) allf 0 = Some idx).
-      { apply (find_field_index _ allf i 0); [apply Nat.lt_le_incl; apply nth_error_Some; congruence|cbn [Nat.add]; exact Hni]. }
-      rewrite Hidx, Hch, Hvx in Ee. cbn [andb] in Ee.
-      destruct (all_some (map (alt_key f1) (tl cfs))) as [alts|] eqn:Ealts; cbn [snd comp_enc] in Ee; [|discriminate].
-      destruct (nth_error allcs idx) as [[sv|]|]; try discriminate.
-      destruct (key_of sv) as [k|]; [|discriminate].
-      assert (Hfa : X691.find_alt r alts = Some (t2a f1 (f_ty a) (f_params a))).
-      { destruct cfs as [|c0 cfs']; [destruct (Z.to_nat present); discriminate|].
-        destruct (Z.to_nat present) as [|m] eqn:Em; [lia|]. cbn [tl nth_error] in *.
-        eapply (find_alt_link f1 r cfs' alts 1 m a); eauto. }
-      rewrite Hfa in Ee. destruct (k =? r)%Z; [|discriminate].
-      destruct (x691 (t2a f1 (f_ty a) (f_params a)) xx 0) as [inner| |] eqn:Einner; cbn [xbind] in Ee; try discriminate.
-      apply (Hrec (f_ty a) ltac:(lia) f1 f2' f4 (f_params a) av xx 0%nat inner); auto; lia.
+    cbn [fields_sup]. apply andb_true_iff. destruct c as [cv|].
+    - destruct (comp_enc allcs (snd (gty f1 allf f)) cv (pos0 + length acc)) as [e| |] eqn:Ee; cbn [xbind] in Hx; try discriminate.
+      split; [eapply (field_ok allf allv allcs f1 f2 f4 pos0 i f x cv acc e); eauto|eapply IH; eauto].
+    - destruct (p_optional (f_params f)) eqn:Eo; [|discriminate]. split; [|eapply IH; eauto].
+      unfold habs in Hc. unfold field_sup. destruct (f_ty f); try (destruct (abs_f f2 _ (f_params f) x); discriminate).
+      destruct x; try (destruct (abs_f f2 _ (f_params f) _); discriminate). exact Eo.
   Qed.
 End Level.
 
